@@ -220,7 +220,8 @@ def model (ops : List String) : List String := runOps {} (ops.map parseOp)
   returned, and the requested truncations.
   * every read of a returned reference — the immediate one inside `w` and every later `r`, wherever the queue
     worker stands — yields the encoding and bytes that were written, unless a `trunc n` with `n > seq` was requested
-    after the write (then "file missing" is admissible as well; wrong bytes never are);
+    after the write (then any error is admissible as well — file numbers restart at 1 after a truncation of everything, so an
+    old reference may point into a new file; wrong bytes never are);
   * no write callback reports an error;
   * `trunc n` removes only files that existed before and have a number `< n`, and reports no error;
   * `restart` (clean close and reopen) lists, in write order, with reference, series, time range, sample count
@@ -319,7 +320,7 @@ def verdict (ws : List JWrite) (k : Nat) : List Op → List String → Option St
       match ws.find? (·.ref = ref) with
       | none => verdict ws (k + 1) ops outs
       | some w =>
-        if out = "unsafe" ∨ out = expectStr w.c ∨ (w.truncated ∧ (out = "Emissing" ∨ out = "Egt")) then verdict ws (k + 1) ops outs
+        if out = "unsafe" ∨ out = expectStr w.c ∨ (w.truncated ∧ out.startsWith "E") then verdict ws (k + 1) ops outs
         else some s!"violation read-your-writes op={k} ref={refStr ref} got={out} want={expectStr w.c}"
     | .wr =>
       match t with
